@@ -18,7 +18,7 @@ ALWAYS_SEARCH = False
 
 def _case(s, offs, kind='pos'):
     lo, fo, co = offs
-    wire = [20] + w_opt(lo) + w_opt(fo) + w_opt(co) + w_str(s) + w_list(list(range(len(s) + 1)))
+    wire = [2000] + w_opt(lo) + w_opt(fo) + w_opt(co) + w_str(s) + w_list(list(range(len(s) + 1)))
     return {'wire': wire, 'desc': {'s': s, 'offsets': list(offs), 'kind': kind},
             'nt': ('\n' in s and len(s) >= 2)}
 
